@@ -30,6 +30,7 @@
   * handler of request i of connection c
         defer numInvoke--            `dec c i`
         rsp := t.server.invoke(…)    `start c i` (Invoke entered) … `fin c i` (Invoke returned)
+        if cPacketType == TARSONEWAY || len(rsp) == 0 { return }   `skip c i` (requests sent with `sendNR`)
         conn.Write(rsp)              `write c i`   (fails when the server has closed the connection)
   * pool (abstraction of gpool that keeps what matters here): the dispatcher takes one job out of the
     queue (`pTake`), waits for an idle worker and hands the job over (part of `start`); `Release`
@@ -50,8 +51,8 @@
     the clock (`age c`: two seconds have passed since the connection's idle stamp).
 
   Simplifications (all over-approximations of the schedules or listed as assumptions in checks/C12.json):
-  clients send whole packages (no residue of a partial package in `currBuffer`); every request gets a
-  response (no one-way packets); a read error may occur at any time (`readErr`; `fatal` = any error
+  clients send whole packages (no residue of a partial package in `currBuffer`); which requests need no
+  response (one-way packets, empty responses) is fixed when the client sends them (`sendNR`); a read error may occur at any time (`readErr`; `fatal` = any error
   that is not a timeout, or the idle-timeout return); the two tickers are abstracted to "may fire at
   any time"; `sync.Map.Range` visits the connections stored when it begins.
 
@@ -80,6 +81,10 @@ structure Cfg where
   pool : Option (Nat × Nat)
   releaseAfterDrain : Bool
   ci : CIMode
+  /-- the handler's `numInvoke--` is a `defer` at the top of the closure, so it also runs on the early
+  return taken for one-way requests and empty responses (the code); `false`: it is the closure's last
+  statement and the early return skips it (the variant of `C12_oneway_leak_counterexample`) -/
+  decDeferred : Bool := true
 deriving DecidableEq, Repr
 
 /-- state of the handler closure of one dispatched request -/
@@ -90,6 +95,8 @@ inductive HSt
   | finished            -- Invoke returned, `conn.Write(rsp)` not yet executed
   | wrote (ok : Bool)   -- `conn.Write(rsp)` executed; ok = the connection was still open
   | done (ok : Bool)    -- deferred `numInvoke--` executed
+  | leaked              -- only with `decDeferred = false`: the handler returned early (one-way request /
+                        -- empty response) past its `numInvoke--`: it is over, the counter stays up
 deriving DecidableEq, Hashable, Repr
 
 def HSt.isDone : HSt → Bool
@@ -116,6 +123,9 @@ structure Req where
   st : HSt
   /-- ghost: the connection was open when `handleConn` counted the request -/
   dispOpen : Bool
+  /-- the handler has nothing to write: a one-way request (`cPacketType == TARSONEWAY`) or one whose
+  `Invoke` returns an empty response -/
+  noReply : Bool := false
 deriving DecidableEq, Hashable, Repr
 
 /-- program counter of the connection goroutine (`go func(conn)` in `Handle`, then `recv`) -/
@@ -151,6 +161,8 @@ structure Conn where
   reqs : List Req := []
   /-- ghost: request ids the client has sent -/
   sent : List Rid := []
+  /-- those among them that need no response (one-way packets, requests answered with an empty response) -/
+  nrIds : List Rid := []
   /-- client: responses received -/
   got : List Rid := []
   gotMsg : Bool := false
@@ -214,6 +226,7 @@ def init : State := {}
 inductive Action
   | connect
   | send (c : Cid) (r : Rid)
+  | sendNR (c : Cid) (r : Rid)   -- a request that needs no response (one-way / empty response)
   | accept (c : Cid)
   | register (c : Cid)
   | stamp (c : Cid)
@@ -227,6 +240,7 @@ inductive Action
   | start (c : Cid) (i : Nat)
   | fin (c : Cid) (i : Nat)
   | write (c : Cid) (i : Nat)
+  | skip (c : Cid) (i : Nat)     -- the early return `if cPacketType == TARSONEWAY || len(rsp) == 0 { return }`
   | dec (c : Cid) (i : Nat)
   | drainClose (c : Cid)
   | shutdownCall
@@ -249,8 +263,9 @@ deriving DecidableEq, Repr
 
 /-! ### transitions of one connection record -/
 
-def cSend (r : Rid) (k : Conn) : Option Conn :=
-  if r ∈ k.sent then none else some { k with wire := k.wire ++ [r], sent := r :: k.sent }
+def cSend (nr : Bool) (r : Rid) (k : Conn) : Option Conn :=
+  if r ∈ k.sent then none
+  else some { k with wire := k.wire ++ [r], sent := r :: k.sent, nrIds := if nr then r :: k.nrIds else k.nrIds }
 
 def cAccept (k : Conn) : Option Conn :=
   match k.rpc with
@@ -296,7 +311,7 @@ def cDispatch (pool : Bool) (k : Conn) : Option Conn :=
   | .parse, r :: rest =>
     some { k with
       buf := rest, numInvoke := k.numInvoke + 1,
-      reqs := k.reqs ++ [{ id := r, st := .queued, dispOpen := !k.srvClosed }],
+      reqs := k.reqs ++ [{ id := r, st := .queued, dispOpen := !k.srvClosed, noReply := k.nrIds.contains r }],
       rpc := if pool then .sending k.reqs.length else if rest = [] then .top else .parse }
   | _, _ => none
 
@@ -318,7 +333,18 @@ def cHand (i : Nat) (k : Conn) : Option Conn := cSetSt i .queued .handed k
 def cStartP (i : Nat) (k : Conn) : Option Conn := cSetSt i .handed .running k
 def cFin (i : Nat) (k : Conn) : Option Conn := cSetSt i .running .finished k
 /-- `conn.Write(rsp)`: an error (only logged) when the server has closed the connection -/
-def cWrite (i : Nat) (k : Conn) : Option Conn := cSetSt i .finished (.wrote (!k.srvClosed)) k
+def cWrite (i : Nat) (k : Conn) : Option Conn :=
+  match k.reqs[i]? with
+  | some q => if q.noReply = false then cSetSt i .finished (.wrote (!k.srvClosed)) k else none
+  | none => none
+
+/-- the early return of the handler for a one-way request or an empty response: nothing is written.
+With the deferred decrement the handler goes on to `numInvoke--` (state `wrote true`: no write has
+failed); without it the handler is over and the counter stays up (`leaked`). -/
+def cSkip (deferred : Bool) (i : Nat) (k : Conn) : Option Conn :=
+  match k.reqs[i]? with
+  | some q => if q.noReply = true then cSetSt i .finished (if deferred then .wrote true else .leaked) k else none
+  | none => none
 
 /-- deferred `atomic.AddInt32(&connSt.numInvoke, -1)` -/
 def cDec (i : Nat) (k : Conn) : Option Conn :=
@@ -348,7 +374,8 @@ def cNotify (k : Conn) : Conn :=
 
 def cRecvRsp (i : Nat) (k : Conn) : Option Conn :=
   match k.reqs[i]? with
-  | some q => if q.st.answered = true ∧ q.id ∉ k.got then some { k with got := k.got ++ [q.id] } else none
+  | some q =>
+    if q.st.answered = true ∧ q.noReply = false ∧ q.id ∉ k.got then some { k with got := k.got ++ [q.id] } else none
   | none => none
 
 def cRecvMsg (k : Conn) : Option Conn :=
@@ -357,7 +384,7 @@ def cRecvMsg (k : Conn) : Option Conn :=
 /-- the client reads EOF: the server closed, and (TCP order) everything written before was received -/
 def cRecvEof (k : Conn) : Option Conn :=
   if k.srvClosed = true ∧ k.sawEof = false ∧ (k.notified = true → k.gotMsg = true) ∧
-      (k.reqs.all fun q => !q.st.answered || k.got.contains q.id) = true then
+      (k.reqs.all fun q => !q.st.answered || q.noReply || k.got.contains q.id) = true then
     some { k with sawEof := true }
   else none
 
@@ -399,7 +426,8 @@ def poolOn (cfg : Cfg) : Bool := cfg.pool.isSome
 /-- One atomic step; `none` = the action is not enabled in this state. -/
 def step (cfg : Cfg) (s : State) : Action → Option State
   | .connect => some { s with conns := s.conns ++ [Conn.new] }
-  | .send c r => updConn s c (cSend r)
+  | .send c r => updConn s c (cSend false r)
+  | .sendNR c r => updConn s c (cSend true r)
   | .accept c => if s.apc = .accepting then updConn s c cAccept else none
   | .register c => updConn s c cRegister
   | .stamp c => updConn s c cStamp
@@ -434,6 +462,7 @@ def step (cfg : Cfg) (s : State) : Action → Option State
   | .start c i => if poolOn cfg then updConn s c (cStartP i) else updConn s c (cStart i)
   | .fin c i => updConn s c (cFin i)
   | .write c i => updConn s c (cWrite i)
+  | .skip c i => updConn s c (cSkip cfg.decDeferred i)
   | .dec c i => updConn s c (cDec i)
   | .drainClose c => updConn s c cDrainClose
   | .shutdownCall =>
@@ -540,11 +569,12 @@ def repaired (pool : Option (Nat × Nat)) : Cfg := { pool := pool, releaseAfterD
 
 /-- What the extractor saw in the tree: does `Handle` wait (`Wait()` call) before `Release()`, and
 does `CloseIdles` still call `conn.conn.Close()` itself (as found) or only wake the receive loop
-(`conn.conn.SetReadDeadline`, the repair: `kickOnly`). The harness expects the real code to behave
+(`conn.conn.SetReadDeadline`, the repair: `kickOnly`), and is the handler's `numInvoke--` deferred. The harness expects the real code to behave
 like this. -/
 def treeCfg (pool : Option (Nat × Nat)) : Cfg :=
   { pool := pool,
     releaseAfterDrain := decide (Consts.srvHandleWaitsBeforeRelease ≥ 1),
-    ci := if Consts.srvCloseIdlesCloses ≥ 1 then .asFound else .kickOnly }
+    ci := if Consts.srvCloseIdlesCloses ≥ 1 then .asFound else .kickOnly,
+    decDeferred := decide (Consts.srvInvokeDecDeferred ≥ 1) }
 
 end Tars.ServerConn
